@@ -228,4 +228,3 @@ package eval
 //@   ensures* every.expression.executed: forall i int :: 0 <= i && i < len(set) && set[i] != nil && implements(set[i], Source) ==> select(dslRan, set[i])
 //@   loop 1 invariant progress: 0 <= executed && executed <= len(set) && (forall i int :: 0 <= i && i < executed && set[i] != nil && implements(set[i], Source) ==> select(dslRan, set[i]))
 //@   loop 2 invariant progress: 0 <= executed && executed <= len(set) && len(ranged(2)) <= len(set) && executed == len(set) - len(ranged(2)) + rangeindex + 1 && ranged(2).arr == set.arr && ranged(2).off == set.off + (len(set) - len(ranged(2))) && (forall i int :: 0 <= i && i < executed && set[i] != nil && implements(set[i], Source) ==> select(dslRan, set[i]))
-//@   modifies all
